@@ -39,4 +39,10 @@ def run(ctx):
     # warm-up time and replication end are taken from the replication object (shared rule with C02 / C03 / C06)
     ctx.uses('experiment')
     S.replication_frame(ctx, 'R11.9')
+    # the warm-up event precedes normal-priority events of the same instant only if the event list orders by (time, priority, id) and keeps
+    # doing so after a cancellation (heap discipline, key and observers: shared rules with C01)
+    from . import c01
+    ctx.uses('eventlist')
+    for cname_ in ctx.prog.subclasses('EventListInterface'):
+        c01.check_eventlist(ctx, cname_)
     T.reset_completeness(ctx, 'R11.7', ['SimCounter', 'SimTally', 'SimWeightedTally', 'SimPersistent'])
